@@ -66,7 +66,7 @@ func (C02) Meta() core.Meta {
 		Real:       []string{"filippo.io/age Decrypt", "internal/stream Reader", "internal/format Parse", "armor Reader (rearmor runs)"},
 		Stub:       []string{"ciphertext source (SimSource) and its delivery schedule", "storage image (damaged copy of what SimDisk recorded)", "crypto/rand.Reader (tape)", "byzantine writer (reference model with the file key)"},
 		FaultKinds: []string{"fault.trunc", "fault.flip", "fault.insert", "fault.delete", "fault.extend", "fault.drop", "fault.dup", "fault.swap", "fault.move", "fault.misdirect", "fault.byzantine_seq"},
-		Probes:     []string{"probe.full_final_chunk", "probe.full_final_plus_trailing", "probe.retry_as_final", "probe.error_from_Decrypt", "probe.error_after_release", "probe.byz_accepted_canonical", "probe.byz_rejected", "probe.trivial_same_image", "probe.empty_final_after_full"},
+		Probes:     []string{"probe.full_final_chunk", "probe.full_final_plus_trailing", "probe.error_from_Decrypt", "probe.error_after_release", "probe.byz_accepted_canonical", "probe.byz_rejected", "probe.trivial_same_image", "probe.empty_final_after_full"},
 	}
 }
 
